@@ -266,7 +266,9 @@ fn update_best_com(
         weights2com.into_iter().collect::<Vec<(usize, f64)>>(),
         |e| e.0,
     );
-    for (nbr_com, wt) in weights2com {
+    // candidate communities are visited in a fixed order, so that a tie between equally good
+    // communities is not decided by the iteration order of a hash map
+    for (nbr_com, wt) in weights2com.into_iter().sorted_by_key(|(com, _)| *com) {
         let gain = match directed {
             true => {
                 wt - resolution
@@ -479,7 +481,8 @@ where
     );
     #[cfg(feature = "verif_hooks")]
     let hs = &hs_ordered;
-    hs.iter().fold(hm, |mut acc: HashMap<usize, f64>, v: &T| {
+    // neighbours are visited in a fixed order, so that the weight sums round identically on every call
+    hs.iter().sorted().fold(hm, |mut acc: HashMap<usize, f64>, v: &T| {
         if u == v {
             return acc;
         }
